@@ -254,6 +254,7 @@ type SchemaOpts struct {
 	Unions     bool
 	Inputs     bool
 	Custom     bool // custom scalars
+	AllCustom  bool // use every custom scalar of the pool
 	ListDepth  int
 }
 
@@ -298,7 +299,11 @@ func RandomSchema(r *core.Rng, o SchemaOpts) *Schema {
 	used := map[string]bool{"Query": true, "Mutation": true, "Subscription": true}
 	var leafTypes = []string{"Int", "Float", "String", "Boolean", "ID"}
 	if o.Custom {
-		for _, c := range pickDistinct(r, customScalars, 1+r.Intn(2), used) {
+		nc := 1 + r.Intn(2)
+		if o.AllCustom {
+			nc = len(customScalars)
+		}
+		for _, c := range pickDistinct(r, customScalars, nc, used) {
 			s.add(&TypeDef{Kind: "SCALAR", Name: c})
 			leafTypes = append(leafTypes, c)
 		}
